@@ -59,6 +59,79 @@ def check_typed(v, what, obs, key):
         v.violation(f"C20:unexpected-exception:{obs[1]}:{key}", f"{what}: typing raises {obs[1]} (neither a full assignment nor the dedicated assignment error)", {"what": what})
 
 
+def function_level(g, v, tier):
+    import random
+    from rdkit import Chem
+    from . import typing as TY, instances as I
+    from gbigsmiles import forcefield_helper as FH
+    rb = TY.RuleBase(g)
+    th = TY.model_theorems(3, (3, 5, 5, 2)) if tier == "quick" else TY.model_theorems(4, (3, 5, 5, 2))
+    if not th.ok:
+        print(th.tail(30))
+        raise MachineryError("TypingMC: " + str(th.invariant_violated() or "TLC failed"))
+    texts = [s for s in STRINGS] + [m.text() for m in I.core_instances() + I.extra_instances() + I.chem_instances(tier)
+                                     if not m.name.startswith(("neg", "negative", "plain"))]
+    rnd = random.Random(common.seed() + 20)
+    K = 3 if tier == "quick" else 10
+    assigner = FH.get_assignment_class(None, None)
+    obs, meta = [], []
+    for text in texts:
+        try:
+            mg = g.Molecule(text).generate(rng=np.random.default_rng(5))
+            if len(mg.bond_descriptors) or mg.mol.GetNumAtoms() > 60:
+                continue
+            mol = Chem.AddHs(mg.mol)
+        except Exception:
+            continue      # generation is not C20's matter
+        ref = len(obs) + 1
+        obs.append(TY.observe(rb, assigner, mol, FH.FfAssignmentError))
+        meta.append((text, "numbering of generation"))
+        # the public entry point, in the numbering generation produced, must agree with the assignment object
+        try:
+            ff, m2 = mg.forcefield_types
+            api = [[] if ff.get(a) is None else (rb.types_with(ff[a]) or [0]) for a in range(m2.GetNumAtoms())]
+            api_kind = "typed"
+        except FH.FfAssignmentError as exc:
+            part = exc.incomplete_ff_dict if isinstance(exc.incomplete_ff_dict, dict) else {}
+            api = [[] if part.get(a) is None else (rb.types_with(part[a]) or [0]) for a in range(mol.GetNumAtoms())]
+            api_kind = "assignment-error"
+        if api_kind != obs[-1]["kind"] or api != obs[-1]["got"]:
+            v.violation("C20:entry-point-differs-from-assignment-object", f"{text}: MolGen.forcefield_types and get_type_assignments on the same molecule differ", {"string": text})
+        n = mol.GetNumAtoms()
+        for _ in range(K):
+            order = list(range(n))
+            rnd.shuffle(order)                      # new atom i is old atom order[i]
+            perm = [0] * n
+            for new, old in enumerate(order):
+                perm[old] = new + 1
+            obs.append(TY.observe(rb, assigner, Chem.RenumberAtoms(mol, order), FH.FfAssignmentError, ref=ref, perm=perm))
+            meta.append((text, "random renumbering"))
+    r = TY.validate(rb, obs)
+    if not r.ok:
+        print(r.tail(30))
+        raise MachineryError("TLC failed on TypingTrace")
+    diverge = []
+    for d in r.printed:
+        if "failed" not in d:
+            continue
+        text, how = meta[d["obs"] - 1]
+        for c in d["failed"]:
+            name = c.split(":")[0]
+            if name == "numbering":
+                v.violation("C20:depends-on-atom-numbering:function", f"{text} ({how}): the parameter sets of the renumbered molecule are not the renumbered parameter sets", {"string": text})
+            elif name in ("outcome", "typed-atoms"):
+                v.violation(f"C20:totality:{c}", f"{text} ({how}): {c} - every atom matched by a rule gets a parameter set, the assignment error is raised iff an atom is matched by no rule "
+                                                 f"and carries exactly the partial assignment", {"string": text})
+            elif name == "spec-type-mass-is-not-the-element's":
+                v.violation("C20:mass-of-other-element:rule-files", f"{text} ({how}): the type of the longest matching rule has the mass of another element", {"string": text})
+            else:
+                diverge.append(f"{text} ({how}): {c}")
+    if diverge:
+        v.notes.append("the implementation chooses another type than spec/Typing.tla for some atom (not a clause of C20 unless numbering or masses are affected): " + "; ".join(diverge[:5]))
+    return {"theorem_states": th.distinct, "calls": len(obs), "molecules": sum(1 for m in meta if m[1].startswith("numbering")), "renumberings_per_molecule": K,
+            "rules": len(rb.rules), "types": len(rb.type_names), "divergences_not_c20": len(diverge)}
+
+
 def run(tier):
     g = common.import_repo()
     v = Verdict("C20", tier)
@@ -104,7 +177,11 @@ def run(tier):
                 v.violation("C20:depends-on-atom-numbering", f"{s1} and {s2} denote the same molecule {o1[1]} but are typed differently", {"s1": s1, "s2": s2})
         elif o1[0] != o2[0]:
             v.violation("C20:depends-on-atom-numbering", f"{s1} -> {o1[0]}, {s2} -> {o2[0]}", {"s1": s1, "s2": s2})
-    v.coverage = {"states": r.distinct, "transitions": r.generated, "traces_validated_against_impl": len(hs), "histories": len(hs), "depth": depth,
+    # (4) function level: the assignment as a function of the match relation (spec/Typing.tla), in several atom numberings
+    fn = function_level(g, v, tier)
+    v.coverage = {"states": r.distinct + fn["theorem_states"] + fn["calls"], "transitions": r.generated + fn["theorem_states"],
+                  "assignment_function": fn,
+                  "traces_validated_against_impl": len(hs) + fn["calls"], "histories": len(hs), "depth": depth,
                   "typing_observations_compared": n_obs, "baseline_observations": len(keys), "renumbering_pairs": n_eq,
                   "samples": [hs[i]["h"] for i in (0, len(hs) // 2, len(hs) - 1)]}
     v.assumptions = ["parameter mass = element mass within 0.02 Da (OPLS masses are rounded)",
